@@ -101,6 +101,20 @@ func trimTrailingSpaces(p string) string {
 	return p
 }
 
+// isStarStar reports whether a whole pattern segment is a run of two or more
+// '*', which wildmatch treats like "**" when it stands between separators.
+func isStarStar(seg string) bool {
+	if len(seg) < 2 {
+		return false
+	}
+	for i := 0; i < len(seg); i++ {
+		if seg[i] != '*' {
+			return false
+		}
+	}
+	return true
+}
+
 func (p *pattern) Match(path []string, isDir bool) MatchResult {
 	if len(path) <= len(p.domain) {
 		return NoMatch
@@ -525,7 +539,7 @@ func (p *pattern) globMatch(path []string, isDir bool) bool {
 			canTraverse = false
 			continue
 		}
-		if pattern == zeroToManyDirs {
+		if isStarStar(pattern) {
 			if i == len(p.pattern)-1 {
 				// A trailing `**` matches the entries below whatever the
 				// earlier segments consumed, so it needs either a remaining
